@@ -54,6 +54,9 @@ func installOrderHooks() {
 		if t := currentTape(); t != nil {
 			t.CharLists = append(t.CharLists, out)
 		}
+		if s := simr.sched; s != nil {
+			s.yield("hook:orderChars") // between building the alphabet and drawing from it
+		}
 		return out
 	}
 	spg.VerifHooks.OrderWords = func(w []string) []string {
